@@ -954,3 +954,105 @@ type AccessEvent struct {
 	Obj, Field, Func, Pos, Held, Case string
 	PC                                  *Term
 }
+
+// constCands: the finite set of constants a bit-vector term can evaluate to, when it is built from constants by
+// if-then-else and arithmetic only (conditions are ignored, so the set over-approximates); nil if not of that shape.
+func constCands(t *Term, memo map[*Term][]*Term, depth int) []*Term {
+	if t.IsConst() {
+		return []*Term{t}
+	}
+	if r, ok := memo[t]; ok {
+		return r
+	}
+	memo[t] = nil
+	if depth > 48 || t.W == 0 {
+		return nil
+	}
+	var out []*Term
+	add := func(c *Term) {
+		for _, o := range out {
+			if o == c {
+				return
+			}
+		}
+		out = append(out, c)
+	}
+	switch t.Op {
+	case OpIte:
+		a, b := constCands(t.Args[1], memo, depth+1), constCands(t.Args[2], memo, depth+1)
+		if a == nil || b == nil {
+			return nil
+		}
+		for _, x := range a {
+			add(x)
+		}
+		for _, x := range b {
+			add(x)
+		}
+	case OpBvAdd, OpBvSub, OpBvMul, OpExtract, OpZext, OpSext, OpBvNeg, OpConcat:
+		sets := make([][]*Term, len(t.Args))
+		n := 1
+		for i, a := range t.Args {
+			sets[i] = constCands(a, memo, depth+1)
+			if sets[i] == nil {
+				return nil
+			}
+			n *= len(sets[i])
+		}
+		if n > 16 {
+			return nil
+		}
+		idx := make([]int, len(sets))
+		for {
+			args := make([]*Term, len(sets))
+			for i := range sets {
+				args[i] = sets[i][idx[i]]
+			}
+			r := rebuild(t, args)
+			if !r.IsConst() {
+				return nil
+			}
+			add(r)
+			k := 0
+			for k < len(idx) {
+				idx[k]++
+				if idx[k] < len(sets[k]) {
+					break
+				}
+				idx[k] = 0
+				k++
+			}
+			if k == len(idx) {
+				break
+			}
+		}
+	default:
+		return nil
+	}
+	if len(out) > 8 {
+		return nil
+	}
+	memo[t] = out
+	return out
+}
+
+// uniqueConst: if t is a constant, or can only evaluate to a small set of constants of which exactly one is satisfiable
+// under the path condition (decided by the solver, not advisory: a candidate is dropped only on "unsat"), returns it.
+func (ex *Exec) uniqueConst(st *State, t *Term) (*Term, bool) {
+	if t.IsConst() {
+		return t, true
+	}
+	if ex.solver == nil {
+		return nil, false
+	}
+	var live []*Term
+	for _, l := range constCands(t, map[*Term][]*Term{}, 0) {
+		if ex.solver.Feasible(ex.feasTimeout, st.pcs, Eq(t, l)) != "unsat" {
+			live = append(live, l)
+		}
+	}
+	if len(live) == 1 {
+		return live[0], true
+	}
+	return nil, false
+}
